@@ -12,7 +12,7 @@ from sim.lib import KINDS
 
 MUTATIONS = {"NEW", "ADD_OP", "ADD_OP_IN", "ADD_SUB", "NEW_LIB", "COPY", "APPLY", "FLATTEN", "SET_DUR", "SET_REP",
              "OVR_ENTER", "OVR_LEAVE", "SET_INIT"}
-FAULTS = {"FLUSH", "SINK_FAIL", "GC", "IDLE"}
+FAULTS = {"FLUSH", "SINK_FAIL", "GC", "IDLE", "DROP"}
 
 GKEY = {"readout": "READOUT", "microwave": "MICROWAVE", "flux": "FLUX", "reset": "RESET"}
 CHAN = {"RO": "READOUT", "MW": "MICROWAVE", "FL": "FLUX", "ALL": "ALL"}
@@ -249,6 +249,17 @@ class Exec:
         elif op == "SINK_FAIL":
             self.W.arm(int(st["n"]))
         elif op == "GC":
+            gc.collect()
+        elif op == "DROP":
+            # the session lets go of a circuit: its objects become garbage, a later collection can hand their
+            # addresses (which id()-based hashes use) to new objects
+            h = self.handles.pop(st["c"], None)
+            if h is not None and not any(o.entries is h.entries for o in self.handles.values()):
+                dead = {id(e) for e in h.entries}
+                self._keep = [o for o in self._keep if id(o) not in dead]
+                for k in dead:
+                    self._ent.pop(k, None)
+            del h
             gc.collect()
         elif op == "IDLE":
             pass
